@@ -3,7 +3,16 @@ sys.path.insert(0, os.path.dirname(os.path.dirname(os.path.abspath(__file__))))
 from pyvc.verify import World, verify_function
 w = World()
 targets = [a for a in sys.argv[1:] if not a.startswith("-")]
+from pyvc.verify import verify_lemma
 for t in targets:
+    lem = [x for x in w.reg.lemmas if f'{x[0]}:{x[1].name}' == t or x[1].name == t]
+    if lem:
+        r = verify_lemma(w, *lem[0])
+        print(f'== lemma {t} obligations={len(r.obligations)} time={r.seconds:.2f}s vac={r.vacuity}')
+        if r.error: print('   ERROR', r.error)
+        for o in r.obligations:
+            if o.verdict != 'discharged' or '-v' in sys.argv: print('  ', o.verdict, o.name, o.backend, o.detail, o.model or '')
+        continue
     con = w.reg.contracts[t]
     for variant in (con.variants or [None]):
         r = verify_function(w, con, variant)
